@@ -222,8 +222,10 @@ class PrintingStringIO(CapturingStringIO):
         return super().flush()
 
     def writelines(self, lines):
-        self._original_stdout.writelines(lines)
-        return super().writelines(lines)
+        # Once through write(), which echoes: `lines` may be a generator, and
+        # StringIO.writelines() goes through write() as well
+        for line in lines:
+            self.write(line)
 
 
 def make_fake_output(also_print=False) -> StringIO:
